@@ -362,6 +362,159 @@ func c08Bookkeeping(p *load.Program, r *core.Report, machines []*ssa.Function) {
 	}
 }
 
+// c08Stopping: S10 and S11.
+//
+// S10 (all/rest-for-one): while the machine is stopping a group (mode 2) every child termination
+// is compared with the restart position before the machine decides to keep waiting or to start:
+// every path from the mode==2 edge to a return passes the test "index of this child < restart
+// position" (a child that dies in front of the range must pull the range forward, otherwise a
+// Permanent child stays down).
+//
+// S11: the state machines do not give up on an event: every explicit panic in a method of a
+// strategy type is a stated belief "cannot happen"; each must be in the table of beliefs confirmed
+// by reading, identified by function and guard — a new or differently guarded panic is reported.
+func c08Stopping(p *load.Program, r *core.Report, machines []*ssa.Function) {
+	rule10 := "C08.S10 stopping-phase-tracks-terminations"
+	rule11 := "C08.S11 no-unlisted-panic"
+	r.Floor(rule10, 1)
+	r.Floor(rule11, 4)
+	var arfo *ssa.Function
+	for _, f := range machines {
+		if strings.Contains(fname(f), "supARFO") {
+			arfo = f
+		}
+	}
+	if arfo == nil {
+		r.Unk(rule10, "C08.S10|machine", "", "", "all/rest-for-one machine found", "not found")
+	} else {
+		fn := fname(arfo)
+		key := "C08.S10|" + fn
+		inst := "in the stopping phase every child termination is compared with the restart position before the machine waits on or starts anything"
+		// mode == 2 true edges
+		var starts []Point
+		eachInstr(arfo, func(in ssa.Instruction) {
+			b, ok := in.(*ssa.BinOp)
+			if !ok || b.Op != token.EQL {
+				return
+			}
+			if c, okc := constInt(b.Y); !okc || c != 2 {
+				return
+			}
+			if _, path, okp := fieldPath(b.X); !okp || len(path) == 0 || path[len(path)-1] != "mode" {
+				return
+			}
+			t, _, _ := boolEdges(b)
+			for _, e := range t {
+				starts = append(starts, Point{e.To(), 0})
+			}
+		})
+		isCmp := func(in ssa.Instruction) bool {
+			b, ok := in.(*ssa.BinOp)
+			if !ok || (b.Op != token.LSS && b.Op != token.GTR && b.Op != token.LEQ && b.Op != token.GEQ) {
+				return false
+			}
+			isPos := func(v ssa.Value) bool {
+				_, path, okp := fieldPath(v)
+				return okp && len(path) > 0 && path[len(path)-1] == "restartI"
+			}
+			return isPos(b.X) || isPos(b.Y)
+		}
+		switch {
+		case len(starts) == 0:
+			r.Unk(rule10, key, fn, p.Pos(arfo.Pos()), inst, "no test of the mode against the stopping phase (2)")
+		default:
+			if hit := reaches(starts, isCmp, isReturn); hit != nil {
+				r.Bad(rule10, key, fn, p.Pos(hit.Pos()), inst, "the return at "+p.Pos(hit.Pos())+" is reached in the stopping phase without comparing the terminated child's index with the restart position: a child that terminates in front of the range being restarted is forgotten (a Permanent child stays down)")
+			} else {
+				r.OK(rule10, key, fn, p.Pos(arfo.Pos()), inst, "every path of the stopping phase passes the comparison with the restart position")
+			}
+		}
+	}
+	// ---- S11
+	beliefs := map[string]string{
+		"childStarted|Name!=Name":  "the spec index travels inside the action the machine produced itself; a mismatch means memory corruption",
+		"childForStart|pid!=zero":  "every running child of the range was put into the wait set before the start phase begins",
+		"childForStart|after-loop": "the range always contains the enabled child whose termination activated the strategy",
+	}
+	for _, f := range funcsOfPkgs(p, "act") {
+		rv := root(f).Signature.Recv()
+		if rv == nil {
+			continue
+		}
+		n := namedOf(rv.Type())
+		if n != "act.supOFO" && n != "act.supARFO" && n != "act.supSOFO" {
+			continue
+		}
+		seq := map[string]int{}
+		eachInstr(f, func(in ssa.Instruction) {
+			pn, ok := in.(*ssa.Panic)
+			if !ok || pn.Pos() == token.NoPos {
+				return
+			}
+			// only explicit panics: the operand is built from a package-level error or a string
+			if _, isMk := pn.X.(*ssa.MakeInterface); !isMk {
+				if _, isCI := pn.X.(*ssa.ChangeInterface); !isCI {
+					return
+				}
+			}
+			sig := panicGuard(pn)
+			id := f.Name() + "|" + sig
+			seq[id]++
+			key := fmt.Sprintf("C08.S11|%s|%s#%d", fname(f), sig, seq[id])
+			inst := "an explicit panic in a supervisor state machine is a confirmed 'cannot happen'"
+			if why, ok := beliefs[id]; ok && why != "" {
+				r.OK(rule11, key, fname(f), p.Pos(pn.Pos()), inst, "listed belief: "+why)
+			} else {
+				r.Bad(rule11, key, fname(f), p.Pos(pn.Pos()), inst, "this panic (guard: "+sig+") is not in the list of beliefs confirmed by reading: if the guarded situation can occur — e.g. two children terminating close together — the supervisor process dies with reason panic and nothing is restarted")
+			}
+		})
+	}
+}
+
+// panicGuard describes the condition under which a panic block is entered: the comparison of the
+// dominating branch in terms of field names, or "after-loop" when the block follows a loop exit.
+func panicGuard(pn *ssa.Panic) string {
+	b := pn.Block()
+	if len(b.Preds) != 1 {
+		return "merge"
+	}
+	pr := b.Preds[0]
+	iff, ok := pr.Instrs[len(pr.Instrs)-1].(*ssa.If)
+	if !ok {
+		return "unconditional"
+	}
+	name := func(v ssa.Value) string {
+		if c, ok := v.(*ssa.Const); ok {
+			if c.Value == nil {
+				return "zero"
+			}
+			return c.Value.String()
+		}
+		if isLenCallOf(v, func(ssa.Value) bool { return true }) {
+			_, path, _ := fieldPath(v.(*ssa.Call).Common().Args[0])
+			if len(path) > 0 {
+				return "len(" + path[len(path)-1] + ")"
+			}
+			return "len"
+		}
+		if _, path, ok := fieldPath(v); ok && len(path) > 0 {
+			return path[len(path)-1]
+		}
+		return "?"
+	}
+	switch c := iff.Cond.(type) {
+	case *ssa.BinOp:
+		// range loop condition (counter < len): the panic follows the loop
+		if c.Op == token.LSS {
+			if _, isLen := c.Y.(*ssa.Call); isLen && name(c.X) == "?" {
+				return "after-loop"
+			}
+		}
+		return name(c.X) + c.Op.String() + name(c.Y)
+	}
+	return "cond"
+}
+
 // isZeroValue: v is the zero value of its type: a zero constant, or a load of a local that is never stored to.
 func isZeroValue(v ssa.Value) bool {
 	if c, ok := v.(*ssa.Const); ok {
